@@ -115,6 +115,31 @@ def _heappop(I, args, kw):
     return least
 
 
+def _nsmallest(I, args, kw):
+    """heapq.nsmallest(n, h) (no key): the min(max(n, 0), len(h)) least elements in ascending order = a prefix of
+    sorted(h) (trusted sorted() model: stable permutation ordered by python tuple order)"""
+    if kw:
+        raise Unsupported("heapq.nsmallest(key=...)")
+    n = to_int(I.force(args[0]))
+    h = I.force(args[1])
+    if isinstance(h, B.VEmptyList):
+        return h
+    if not isinstance(h, VSeq):
+        raise Unsupported("nsmallest over %s" % type(h).__name__)
+    r = B.sort_seq(I, VSeq(h.arr, h.n, h.et, "list"), None)
+    k = z3.If(n < 0, 0, z3.If(n > r.n, r.n, n))
+    return VSeq(r.arr, z3.simplify(k), r.et, "list")
+
+
+def _heapify(I, args, kw):
+    """heapq.heapify(h): rearranges h in place into heap order -- a no-op in the multiset model (the layout of the
+    list is never observed except through heappop / nsmallest / len)"""
+    h = I.force(args[0])
+    if not isinstance(h, (VSeq, B.VEmptyList)):
+        raise Unsupported("heapify of %s" % type(h).__name__)
+    return VNone()
+
+
 def _timedelta(I, args, kw):
     """datetime.timedelta(days=, seconds=): a duration in seconds on the real line.  Datetimes are modelled as
     real numbers (UTC seconds); datetime - timedelta and datetime comparisons are then ordinary arithmetic."""
@@ -415,6 +440,8 @@ TABLE = {
     ("collections", "defaultdict"): _defaultdict,
     ("heapq", "heappush"): _heappush,
     ("heapq", "heappop"): _heappop,
+    ("heapq", "nsmallest"): _nsmallest,
+    ("heapq", "heapify"): _heapify,
     ("numpy", "stack"): _np_stack,
     ("numpy", "mean"): _np_mean,
     ("datetime", "timedelta"): _timedelta,
